@@ -8,6 +8,7 @@ import (
 	"errors"
 	"fmt"
 	"github.com/transparency-dev/witness/internal/persistence"
+	"io/fs"
 	"os"
 	"strings"
 	"sync"
@@ -46,22 +47,36 @@ type feedCall struct {
 }
 
 type feedWorld struct {
-	truth     func() []byte // what the real witness's store holds (fault-free side read); nil for the stub
-	mu        sync.Mutex
-	calls     []*feedCall
-	attempt   int
-	pattern   string // one letter per attempt: which step of that attempt fails (G, P, U), '-' none
-	fired     int
-	seamN     int
-	cancelAt  int // seam number at which the context is cancelled (-1 never)
-	cancel    context.CancelFunc
-	cancelled bool
-	inner     feeder.Witness // stub or real
-	compete   func()         // moves the real witness between the feeder's read and its update
-	competed  bool
+	errFlavour   int           // what injected transient failures look like (0 plain, 1 wraps DeadlineExceeded, 2 wraps Canceled)
+	wrapNotExist bool          // "no checkpoint yet" arrives as a wrapped os.ErrNotExist
+	truth        func() []byte // what the real witness's store holds (fault-free side read); nil for the stub
+	mu           sync.Mutex
+	calls        []*feedCall
+	attempt      int
+	pattern      string // one letter per attempt: which step of that attempt fails (G, P, U), '-' none
+	fired        int
+	seamN        int
+	cancelAt     int // seam number at which the context is cancelled (-1 never)
+	cancel       context.CancelFunc
+	cancelled    bool
+	inner        feeder.Witness // stub or real
+	compete      func()         // moves the real witness between the feeder's read and its update
+	competed     bool
 }
 
 var errTransient = errors.New("injected transient failure")
+
+// transientErr is what an injected transient failure returns: a plain error, or - as a peer behind its own per-request
+// deadline would report it - an error that wraps a context error although the FEED's context is alive and well.
+func (fw *feedWorld) transientErr() error {
+	switch fw.errFlavour {
+	case 1:
+		return fmt.Errorf("injected transient failure: request to peer: %w", context.DeadlineExceeded)
+	case 2:
+		return fmt.Errorf("injected transient failure: %w", context.Canceled)
+	}
+	return errTransient
+}
 
 func (fw *feedWorld) seam(kind string) (fail bool) {
 	fw.mu.Lock()
@@ -88,9 +103,13 @@ func (fw *feedWorld) GetLatestCheckpoint(ctx context.Context, logID string) ([]b
 	fw.mu.Unlock()
 	if fw.seam("G") {
 		c.Failed = true
-		return nil, errTransient
+		return nil, fw.transientErr()
 	}
 	b, err := fw.inner.GetLatestCheckpoint(ctx, logID)
+	if fw.wrapNotExist && errors.Is(err, os.ErrNotExist) {
+		// "nothing yet" said the way os.ReadFile or a wrapping layer says it: still os.ErrNotExist for errors.Is
+		err = &fs.PathError{Op: "open", Path: "checkpoint", Err: err}
+	}
 	c.Latest = b
 	c.NotEx = errors.Is(err, os.ErrNotExist)
 	c.Err = err
@@ -113,8 +132,8 @@ func (fw *feedWorld) Update(ctx context.Context, logID string, oldSize uint64, n
 	fw.mu.Unlock()
 	if fw.seam("U") {
 		c.Failed = true
-		c.Err = errTransient
-		return nil, errTransient
+		c.Err = fw.transientErr()
+		return nil, c.Err
 	}
 	if comp != nil {
 		comp()
@@ -196,7 +215,7 @@ func c13Exec(t *testing.T, p *Plan) (r *c13Result) {
 			cp := &SignedCP{Origin: ld.Origin, Branch: branch, Size: size, Root: h[:], Text: text}
 			return MakeNote(text, w.Sign(ld.KeyIdx, cp))
 		}
-		fw := &feedWorld{pattern: p.Cfg.Notes["fail"], cancelAt: -1}
+		fw := &feedWorld{pattern: p.Cfg.Notes["fail"], cancelAt: -1, errFlavour: int(p.Cfg.Extra["err_flavour"]), wrapNotExist: p.Cfg.Extra["wrap_notexist"] != 0}
 		var closeBase func()
 		defer func() {
 			if closeBase != nil {
@@ -339,7 +358,7 @@ func c13Exec(t *testing.T, p *Plan) (r *c13Result) {
 				fw.mu.Unlock()
 				if fw.seam("P") {
 					c.Failed = true
-					return nil, errTransient
+					return nil, fw.transientErr()
 				}
 				var pr [][]byte
 				if from.Size > 0 && from.Size < to.Size && to.Size <= 1<<62 {
@@ -750,6 +769,10 @@ func init() {
 				ex["compete"] = 1
 			}
 			ex["enum"] = 1
+			ex["err_flavour"] = int64(r.Weighted(60, 25, 15))
+			if r.Chance(0.3) {
+				ex["wrap_notexist"] = 1
+			}
 			p.Cfg.Extra, p.Cfg.Notes = ex, notes
 			return p
 		},
